@@ -211,6 +211,9 @@ func rep(t *rt.Thread, c *rt.GoCont) (rt.Cont, error) {
 		return nil, errors.New("rep causes overflow")
 	}
 	t.RequireBytes(n*len(s) + (n-1)*len(sep))
+	// The loop below runs n times whatever the sizes of s and sep (both may
+	// be empty), so its work has to be accounted for.
+	t.RequireCPU(uint64(n))
 	builder.Grow(sz)
 	builder.Write(s)
 	for {
